@@ -166,6 +166,7 @@ Example C13_registry_nonvacuous_fresh_hierarchy :
   map (snd (snd r)) [10; 11; 12; 13; 14; 0] =
     [loaded true (rec 1); loaded true (rec 2); loaded true (rec 0); loaded true (rec 1); loaded true (rec 0); blank 0].
 Proof. vm_compute. repeat split. Qed.
+Print Assumptions C13_registry_nonvacuous_fresh_hierarchy.
 
 (* what [compatible] excludes: the file of the hierarchy WITHOUT shared objects loaded into the
    diamond hierarchy assigns the shared Parameter 1 twice with different records; the load still
@@ -188,6 +189,7 @@ Proof.
   specialize (H [nA; nC; nX] [nB; nC; nX] 1 10 13 (R w3 0 _ _ G1 H3) (R w3 0 _ _ G2 H3) (R w5 0 _ _ G3 H5) (R w5 0 _ _ G4 H5)).
   vm_compute in H. discriminate H.
 Qed.
+Print Assumptions C13_registry_shared_target_last_path_wins.
 
 (* an unknown key is rejected: the file of a model with one more parameter does not load *)
 Example C13_registry_unknown_key_rejected :
@@ -195,3 +197,4 @@ Example C13_registry_unknown_key_rejected :
   fst (load_model_reg true w5 0 (enc_model_file true (model_file_entries rec w6 0), blank)) = None /\
   get_parameter w5 0 [nB; nC; nW] = None /\ get_parameter w6 0 [nB; nC; nW] = Some 15.
 Proof. vm_compute. repeat split. Qed.
+Print Assumptions C13_registry_unknown_key_rejected.
